@@ -72,7 +72,7 @@ func (fr *Frame) callCommon(at ssa.Instruction, cc *ssa.CallCommon, args []*Val,
 	}
 	if callee == nil {
 		// call through a function value of unknown origin
-		res := x.callUnknownFunc(fnv, sig, args, st, reach, pos)
+		res := x.callUnknownFunc(fr, cc.Value, fnv, sig, args, st, reach, pos)
 		return tupleOrSingle(x, res, sig)
 	}
 	res := x.callStatic(callee, args, binds, st, reach, pos, fr.depth)
@@ -81,12 +81,26 @@ func (fr *Frame) callCommon(at ssa.Instruction, cc *ssa.CallCommon, args []*Val,
 
 // callUnknownFunc: a callback supplied by the caller. Modelled as arbitrary code
 // of the client: it may change everything (`modifies *`) and return anything.
-func (x *VC) callUnknownFunc(fnv *Val, sig *types.Signature, args []*Val, st *State, reach, pos string) []*Val {
+func (x *VC) callUnknownFunc(fr *Frame, fv ssa.Value, fnv *Val, sig *types.Signature, args []*Val, st *State, reach, pos string) []*Val {
 	x.note("call through function value at %s: arbitrary effect on the heap assumed (modifies *)", pos)
+	pre := st.clone()
 	x.havocAll(st)
 	var res []*Val
 	for i := 0; i < sig.Results().Len(); i++ {
 		res = append(res, x.fresh(sig.Results().At(i).Type(), "cbres", reach, st))
+	}
+	// what the contract assumes about a callback passed as parameter
+	if p, ok := fv.(*ssa.Parameter); ok && fr.top && x.c != nil && x.c.Callback != nil {
+		if cls := x.c.Callback[p.Name()]; len(cls) > 0 {
+			env := x.topEnv(fr, res, st)
+			env.old = pre
+			env.result = res
+			env.sig = sig
+			for _, cl := range cls {
+				x.assume(reach, x.evalSpec(cl.E, env).T)
+			}
+			x.externs["assumed about the callback parameter "+p.Name()+" of "+fnKeyShort(x.fn)] = true
+		}
 	}
 	return res
 }
@@ -98,7 +112,7 @@ func (x *VC) havocAll(st *State) {
 	st.ep = x.newEpoch("havoc", st.ep)
 	// keep cells; drop explicit heap versions (immutable fields keep theirs)
 	for k := range st.H {
-		if x.immutableComp(k) {
+		if x.immutableComp(k) || x.ghostKey(k) {
 			continue
 		}
 		delete(st.H, k)
@@ -732,6 +746,11 @@ func (x *VC) applyContract(callee *ssa.Function, c *Contract, key string, sig *t
 	for _, e := range c.Ensures {
 		cond := x.evalSpec(e.E, env2)
 		x.assume(reach, cond.T)
+	}
+	for _, e := range c.Assumed {
+		cond := x.evalSpec(e.E, env2)
+		x.assume(reach, cond.T)
+		x.externs["assumed postcondition of "+key+" ["+e.Label+"]"] = true
 	}
 	// vacuity guard: the assumed postcondition must not contradict what is known at this point
 	if len(c.Ensures) > 0 && x.specMode == 0 {
